@@ -32,6 +32,41 @@ fn denorm(id: &str) -> String {
     id.to_string()
 }
 
+/// every literal text (`t:`, `ct:`, `ot:`, any case) of a YAML rule / unicode file, parsed with yaml-rust (the
+/// library's own parser crate); also the targets of `include:` and the TTS string values (audio, voice, gender)
+fn yaml_texts(path: &str) -> Result<Value, String> {
+    use yaml_rust::{Yaml, YamlLoader};
+    let content = std::fs::read_to_string(path).map_err(|e| format!("HARNESS: can't read {}: {}", path, e))?;
+    let docs = YamlLoader::load_from_str(&content).map_err(|e| format!("HARNESS: yaml error in {}: {}", path, e))?;
+    let mut out: Vec<Value> = vec![];
+    fn walk(y: &Yaml, out: &mut Vec<Value>) {
+        match y {
+            Yaml::Array(a) => a.iter().for_each(|v| walk(v, out)),
+            Yaml::Hash(h) => {
+                for (k, v) in h {
+                    if let (Some(key), Some(text)) = (k.as_str(), v.as_str()) {
+                        let lower = key.to_lowercase();
+                        if ["t", "ct", "ot", "include", "audio", "voice", "gender", "spell"].contains(&lower.as_str()) {
+                            out.push(json!([lower, text]));
+                        }
+                    }
+                    if let Some(key) = k.as_str() {
+                        if key.chars().count() <= 12 && !v.is_array() && v.as_hash().is_none() && v.as_str().is_none() {
+                            // numbers / booleans are not texts
+                        }
+                    }
+                    walk(v, out);
+                }
+            }
+            _ => (),
+        }
+    }
+    for d in &docs {
+        walk(d, &mut out);
+    }
+    Ok(Value::Array(out))
+}
+
 thread_local! {
     static LAST_MATHML: std::cell::RefCell<String> = std::cell::RefCell::new(String::new());
 }
@@ -80,6 +115,7 @@ pub fn dispatch(op: &[Value]) -> Result<Value, String> {
             Some(id) => set_navigation_node(id, n(op, 2)).map(|_| Value::Null).map_err(e2s),
             None => Err("HARNESS: no leaf".to_string()),
         },
+        "h_yaml_texts" => yaml_texts(&s(op, 1)),
         "v_get_braille_norm" => get_braille(denorm(&s(op, 1))).map(Value::String).map_err(e2s),
         "get_spoken_text" => get_spoken_text().map(Value::String).map_err(e2s),
         "get_overview_text" => get_overview_text().map(Value::String).map_err(e2s),
@@ -112,6 +148,7 @@ pub fn dispatch(op: &[Value]) -> Result<Value, String> {
         "v_highlight_chars" => libmathcat::verif::braille::highlight_chars(&s(op, 1), &s(op, 2), b(op, 3))
             .map(|(t, a, z)| json!([t, a, z]))
             .map_err(e2s),
+        "v_braille_cleanup" => Ok(Value::String(libmathcat::verif::braille::cleanup(&s(op, 1), &s(op, 2)))),
         "v_highlight_cell" => {
             let (h, hi, un) = libmathcat::verif::braille::highlight_cell(char::from_u32(n(op, 1) as u32).unwrap_or(' '));
             Ok(json!([h, hi as u32, un as u32]))
